@@ -300,4 +300,18 @@ PLAN = {
             {"name": "asan", "flavour": "asan", "shards": 2, "shards_thorough": 8, "thorough_only": True},
         ],
     },
+    "C18": {
+        "level": "exploration",
+        "rule": "per exporter (fresh loopback port, real tokio/hyper listener): an allowlist of 0-5 entries from plain IPs, /32, /30, /25, /24, "
+                "/16, /8, 0.0.0.0/0, foreign and IPv6 entries, then 20-60 connections from harness sockets bound to 14 source addresses "
+                "in 127.0.0.0/8 (inside / outside / first and last address of blocks): well-formed GETs on 6 paths incl. /health, bursts "
+                "of 2-15 concurrent scrapers while a counter changes, garbage bytes, half-open requests, SO_LINGER-0 resets; every "
+                "response is parsed (status line, headers, content-length/chunked body) and judged against an independent CIDR reference, "
+                "the strict exposition parser and value bounds [before request, after response]; a final well-formed client must be "
+                "served. distinct = (allowlist, action sequence) hash.",
+        "assumptions": ["server readiness is established by a successful probe connection", "a port collision at exporter start is inconclusive for that exporter"],
+        "legs": [
+            {"name": "native", "flavour": "native", "shards": 4, "shards_thorough": 16, "timeout": 900},
+        ],
+    },
 }
